@@ -100,8 +100,10 @@ claim("C17", MC,
       "Kani/CBMC: byte view {len, get, slice} on every UTF-8 string <= 2 bytes (thorough 3) and line view {slice, get} on every ASCII string, all indices in "
       "{0..len+1} u {usize::MAX}, against explicit byte-loop references; no panic. Engine B: the MIR bodies of the registered f32/f64 built-ins floor, ceil, round, "
       "abs, sqrt, is_nan, is_infinite, is_finite (pow: argument order only) executed over z3 floating-point terms and decided equal to the IEEE-754 operation the "
-      "documentation names, for every bit pattern; counterexamples replayed on the real JIT.",
-      "The byte- and line-indexed string views and the float built-ins; String methods delegating to std, the char view (std iterator adaptors exceed 24 GB in CBMC "
+      "documentation names, for every bit pattern; counterexamples replayed on the real JIT. Delegations: for 9 IpAddr/Prefix methods and 12 String methods "
+      "(contains, starts_with, ends_with, to_lowercase, to_uppercase, repeat, replace, trim, trim_start, trim_end, strip_prefix, strip_suffix) z3 decides that the "
+      "body registered under the script-visible name (MIR: basic.rs wrapper -> RotoString::m) is the documented std operation applied to the parameters in order.",
+      "The byte- and line-indexed string views, the float built-ins and which std operation the one-line String methods run on which arguments (not what std computes); the char view (std iterator adaptors exceed 24 GB in CBMC "
       "even for 2 ASCII bytes), StringBuf (Arc<str> construction under a mutex: out of memory at 24 GB with one symbolic character), to_string are outside; "
       "IpAddr/Prefix methods are decided as delegations only. StringLines::get is a recorded known finding.",
       "Kani/CBMC differential checking of string views against byte-loop references; z3 floating-point theory over the MIR bodies of the float built-ins", "K+B", "DESIGN.md 5/C17, 10.5b")
